@@ -108,6 +108,8 @@ static std::string traj_config(TrajCase const &c)
   s += "colvar {\n name d\n outputValue " + onoff(c.flags & 1) + "\n outputVelocity " + onoff(c.flags & 2) +
        "\n outputAppliedForce " + onoff(c.flags & 4) + "\n outputTotalForce " + onoff(c.flags & 8) +
        "\n distance {\n group1 { atomNumbers 1 }\n group2 { atomNumbers 2 }\n }\n}\n";
+  // a variable evaluated every second step only: its column is there at every line (with the value it last took)
+  s += "colvar {\n name sl\n width 100.0\n timeStepFactor 2\n distance {\n group1 { atomNumbers 1 }\n group2 { atomNumbers 2 }\n }\n}\n";
   s += "colvar {\n name dv\n outputAppliedForce on\n distanceVec {\n group1 { atomNumbers 1 }\n group2 { atomNumbers 2 }\n }\n}\n";
   s += "harmonic {\n name h\n colvars d\n centers 1.0\n forceConstant 2.0\n targetCenters 3.0\n targetNumSteps 4\n outputEnergy " +
        onoff(c.flags & 16) + "\n outputCenters " + onoff(c.flags & 32) + "\n outputAccumulatedWork " + onoff(c.flags & 64) + "\n}\n";
@@ -197,6 +199,7 @@ static void check_traj_case(TrajCase const &c, Result &r, std::string const &pre
     q.col["fa_d"] = nums_of(d->applied_force());
     q.col["ft_d"] = nums_of(d->ft_reported);
     q.col["dv"] = nums_of(dv->x_reported);
+    q.col["sl"] = nums_of(px->cv("sl")->x_reported);
     q.col["fa_dv"] = nums_of(dv->applied_force());
     q.col["E_h"] = {h->bias_energy};
     q.col["E_hv"] = {hv->bias_energy};
@@ -282,7 +285,7 @@ static void check_traj_case(TrajCase const &c, Result &r, std::string const &pre
   for (size_t i = 0; i < lines.size(); i++) {
     if (lines[i].step != expect[i]->step) { r.violation("C19:traj:wrong-step-number", c.json()); return; }
     // the announced columns must be exactly the outputs requested at that step
-    std::set<std::string> want = {"dv", "fa_dv", "E_hv", "E_w", "W_w"};
+    std::set<std::string> want = {"dv", "fa_dv", "E_hv", "E_w", "W_w", "sl"};
     int const fl = c.flags_at(lines[i].step);
     if (fl & 1) want.insert("d");
     if (fl & 2) want.insert("v_d");
